@@ -15,5 +15,7 @@ def selftest(rep, wd, cfg, traces):
                          ["ExtractPost"], "remains-pooled")
     def swap(o):
         o["res"] = list(reversed(o["res"]))
-    tc.corrupt_and_judge(rep, wd, cfg, traces, lambda o: o["ev"] == "Extract" and len(o["res"]) >= 2, swap,
-                         None, "order")
+    # a parent handed out directly before its child (tied independent transactions may legally come in either order)
+    tc.corrupt_and_judge(rep, wd, cfg, traces,
+                         lambda o: o["ev"] == "Extract" and len(o["res"]) == 2 and o["_prev"] is not None
+                         and [o["res"][0], o["res"][1]] in o["_prev"]["deps"], swap, ["ParentBeforeChild"], "order")
